@@ -33,7 +33,7 @@ def obligations(tier, ctx):
                               call=f"H.runner(command, {al}, {envsel}, envval, {ns})", backend="F", timeout=300, family="multi-server runner"))
     # realistic command/argument texts (bare names present on the host PATH, absolute and relative paths, spaces, quotes, Unicode, empty argument)
     for which, nm in ((0, "loader"), (1, "cli"), (2, "runner")):
-        obs.append(Ob(name=f"corpus_{nm}", params=[("c", "int"), ("a", "int"), ("e", "int")], pre=["0 <= c <= 5", "0 <= a <= 4", "0 <= e <= 4"],
+        obs.append(Ob(name=f"corpus_{nm}", params=[("c", "int"), ("a", "int"), ("e", "int")], pre=["0 <= c <= 5", "0 <= a <= 8", "0 <= e <= 4"],
                       call=f"H.corpus_entry({which}, c, a, e)", backend="P", timeout=300, family="command/argument corpus by symbolic index (Pydantic backend)"))
     return obs
 
